@@ -25,6 +25,17 @@ func vopScript(op byte, maxData int) bscript.Script {
 		} else if op == bscript.OpPUSHDATA4 {
 			w = 4
 		}
+		if vparam("PUSHB", 0) == 1 {
+			// well-formed pushes with lengths on the boundaries between the push forms
+			n := []int{0, 1, 75, 76, 255, 256}[vnondetLen("pushlen-boundary", 0, 5)]
+			if w == 1 && n > 255 {
+				n = 255
+			}
+			for i := 0; i < w; i++ {
+				s = append(s, byte(n>>(8*uint(i))))
+			}
+			return append(s, vnondetBytes("pushdata", n, n)...)
+		}
 		lb := vnondetBytes("pushlen", 0, w)
 		data := vnondetBytes("pushdata", 0, maxData)
 		if len(lb) == w {
